@@ -32,6 +32,8 @@ Fixpoint rmap {A B} (f : A -> res B) (l : list A) : res (list B) :=
 (* fixed_Dnn switches: false = the code as it is in /repo today *)
 Definition fixed_D20 : bool := false.     (* NonTensorStack.to_dict passes an unexpected keyword to tolist *)
 Definition fixed_C16a : bool := false.    (* NonTensorStack.data on nested stacks *)
+Definition fixed_D23 : bool := true.      (* lazy[int_tensor] = value: the members are updated in place (fix bc087c4 in /repo);
+                                             false = the member objects are replaced by the value's pieces *)
 
 (* ---------------- batch size (LazyStackedTensorDict._compute_batch_size: insert the number of members at stack_dim) *)
 Fixpoint shape (x : nt) : option (list nat) :=
@@ -483,8 +485,9 @@ Fixpoint assign (x : nt) (idx : list item) (v : nt) {struct x} : res nt :=
               if (step_of c <=? 0)%Z then OutOfModel
               else rbind (unbind ud v) (fun ps => go (range_sel a b c n) ps false)
           | Some (ITen [k] vals) =>
-              (* is_nd_tensor branch: member <- value piece (the member object is REPLACED when the sub-index is empty) *)
-              rbind (norm_all vals n) (fun js => rbind (unbind ud v) (fun ps => go js ps true))
+              (* is_nd_tensor branch: before fix bc087c4 the member object was REPLACED by the value piece when the sub-index
+                 is empty; now it is updated in place like in the slice branch *)
+              rbind (norm_all vals n) (fun js => rbind (unbind ud v) (fun ps => go js ps (negb fixed_D23)))
           | _ => OutOfModel
           end
       end
